@@ -163,6 +163,10 @@ def check(an, rep, tier):
                     'ok' if ok else 'violation',
                     '' if ok else 'cores right of pivot 0 must be right-'
                     'orthogonal and the pivot core must carry the weights')
+    from .. import rules_proto as _RP
+    _callers = {f.qualname for f in prog.all_functions()
+                if f.module.name in ('sample', 'sample_func')}
+    _RP.check_param_forwarding(prog, rep, callers=_callers)
     rep.floor('L-lin', 4, 'contractions with linear operands')
     rep.floor('N-prob', 4, 'choice(p=...) sites')
     rep.floor('S-ret', 8, 'sampler results')
